@@ -122,3 +122,20 @@ def loop_counter(ps, p, step=1):
     node, lmap = p.loops[-1]
     st = loop_steps(ps, node)
     return [(k, lmap[k][0], lmap[k][1]) for k in lmap if st.get(k) == step]
+
+
+def pointer_walk(eng, ps):
+    """the loop variable (its text) if a loop of these paths steps a pointer instead of an index: a form the index-based
+    table rules do not read (they say so - analysis-broken - instead of judging it)"""
+    from ..sym import fmt
+    seen = set()
+    for p in ps:
+        for node, lmap in p.loops:
+            if id(node) in seen:
+                continue
+            seen.add(id(node))
+            st = loop_steps(ps, node)
+            for k, step in st.items():
+                if step and ('*' in (eng.types.get(k) or '') or '*' in (eng.types.get(lmap[k][0]) or '')):
+                    return fmt(k)
+    return None
